@@ -945,7 +945,7 @@ def _tree(doc=None, text=None, suffix=".json", cfg=None):
 def equivalent_docs_cases(tier):
     return ["nullable-30-vs-typelist", "nullable-ref-allof", "wrapper-allof", "wrapper-oneof", "wrapper-anyof", "json-vs-yaml",
             "nullable-model-oneof", "null-enum-param-shared", "wrapper-with-default", "same-ref-twice-in-union",
-            "union-of-wrappers", "null-enum-component-shared"]
+            "union-of-wrappers", "null-enum-component-shared", "nullable-enum-with-null-30-vs-31"]
 
 
 def equivalent_docs(case):
@@ -1001,6 +1001,12 @@ def equivalent_docs(case):
         d1["components"]["parameters"] = {"St": p}
         d2 = doc({}, paths={"/x": {"get": {"operationId": "g", "parameters": [copy.deepcopy(p)], "responses": ok}},
                             "/y": {"get": {"operationId": "h", "parameters": [copy.deepcopy(p)], "responses": ok}}})
+    elif case == "nullable-enum-with-null-30-vs-31":
+        # an enumeration that lists null AND is declared nullable: 3.0 spelling vs 3.1 type list (both say the same thing)
+        d1 = doc({"st": {"type": "string", "nullable": True, "enum": ["queued", "running", None]},
+                  "lv": {"type": "integer", "nullable": True, "enum": [1, 2, None]}})
+        d2 = doc({"st": {"type": ["string", "null"], "enum": ["queued", "running", None]},
+                  "lv": {"type": ["integer", "null"], "enum": [1, 2, None]}})
     elif case == "null-enum-param-shared":
         p = {"name": "mode", "in": "query", "schema": {"type": "string", "enum": ["a", "b", None], "nullable": True}}
         ok = {"200": {"description": ""}}
